@@ -16,6 +16,7 @@ package nutsdb
 
 import (
 	"errors"
+	"io"
 	"os"
 
 	mmap "github.com/xujiajun/mmap-go"
@@ -80,11 +81,16 @@ func (mm *MMapRWManager) WriteAt(b []byte, off int64) (n int, err error) {
 func (mm *MMapRWManager) ReadAt(b []byte, off int64) (n int, err error) {
 	if mm.m == nil {
 		return 0, ErrUnmappedMemory
-	} else if off >= int64(len(mm.m)) || off < 0 {
+	} else if off > int64(len(mm.m)) || off < 0 {
 		return 0, ErrIndexOutOfBound
 	}
 
-	return copy(b, mm.m[off:]), nil
+	n = copy(b, mm.m[off:])
+	if n < len(b) {
+		return n, io.EOF
+	}
+
+	return n, nil
 }
 
 // Sync synchronizes the mapping's contents to the file's contents on disk.
